@@ -62,6 +62,37 @@ def adjointDiff (alg : Alg) (n : Nat) (A B : List (Term × GQ)) : Option (Nat ×
       let y := GQ.conj (GV.coeff (cols.getD t ([], [])).1 [s])
       if x == y then none else some (s, t, x, y)
 
+/-- a grouped term of the dual-basis Hamiltonian as `low_depth_trotter_error` passes it to
+`trivially_double_commutes_dual_basis_using_term_info`:
+* a hopping group `t (i^ j + j^ i)` on the modes `{i, j}` (`hop = true`),
+* a number group `w i^ j^ i j + c_i i^ i + c_j j^ j` on the modes `{i, j}` (`hop = false`, `one = false`),
+* an external-potential term `c_i i^ i` on the single mode `{i}` (`hop = false`, `one = true`; the layer
+  added by `external_potential_at_end`). -/
+structure DualGroup where
+  hop : Bool
+  one : Bool
+  i : Nat
+  j : Nat
+  t : GQ
+  w : GQ
+  ci : GQ
+  cj : GQ
+
+/-- a single-mode group -/
+def DualGroup.single (g : DualGroup) : Bool := !g.hop && g.one
+
+/-- the index set handed to the function (a list without repetition) -/
+def DualGroup.idx (g : DualGroup) : List Nat := if g.single then [g.i] else [g.i, g.j]
+
+/-- the two modes of a two-mode group are different -/
+def DualGroup.WF (g : DualGroup) : Prop := g.single = false → g.i ≠ g.j
+
+/-- the operator of a group, as the term dictionary the library holds -/
+def DualGroup.op (g : DualGroup) : List (Term × GQ) :=
+  if g.hop then [([(g.i, 1), (g.j, 0)], g.t), ([(g.j, 1), (g.i, 0)], g.t)]
+  else if g.one then [([(g.i, 1), (g.i, 0)], g.ci)]
+  else [([(g.i, 1), (g.j, 1), (g.i, 0), (g.j, 0)], g.w), ([(g.i, 1), (g.i, 0)], g.ci), ([(g.j, 1), (g.j, 0)], g.cj)]
+
 end C07
 end Spec
 end OFV
